@@ -1176,6 +1176,13 @@ Error JitAllocator::query(Out<Span> out, void* rx) const noexcept {
     return make_error(Error::kInvalidArgument);
   }
 
+  // Only the address of a span is accepted - the same way release() and shrink() accept it (a pointer into the
+  // initial padding or into the middle of a span doesn't identify a span).
+  bool is_span_start = (offset & (size_t(pool->granularity) - 1u)) == 0u && block->is_span_start(area_start);
+  if (ASMJIT_UNLIKELY(!is_span_start)) {
+    return make_error(Error::kInvalidArgument);
+  }
+
   uint32_t area_end = uint32_t(Support::bit_vector_index_of(block->_stop_bit_vector, area_start, true)) + 1;
   size_t byte_offset = pool->byte_size_from_area_size(area_start);
   size_t byte_size = pool->byte_size_from_area_size(area_end - area_start);
